@@ -478,6 +478,10 @@ class RawAlgorithmsMixIn:
             raise NotImplementedError
         (D,P) = y_data.shape[:2]
 
+        if isinstance(r, numpy.integer):
+            # an integer exponent taken from an array is an integer exponent
+            r = int(r)
+
         if type(r) == int and r >= 0:
             if r == 0:
                 y_data[...] = 0.
@@ -519,6 +523,9 @@ class RawAlgorithmsMixIn:
 
         xbar_data = out
         (D,P) = y_data.shape[:2]
+
+        if isinstance(r, numpy.integer):
+            r = int(r)
 
         # if r == 0:
             # raise NotImplementedError('x**0 is special and has not been implemented')
